@@ -346,7 +346,7 @@ func (runInfo *runInfoStruct) invokeMemberExpr(expr *ast.MemberExpr) {
 		runInfo.rv = runInfo.rv.Elem()
 	}
 
-	if env, ok := runInfo.rv.Interface().(*env.Env); ok {
+	if env, ok := runInfo.rv.Interface().(*env.Env); ok && env != nil {
 		runInfo.rv, runInfo.err = env.GetValue(expr.Name)
 		if runInfo.err != nil {
 			runInfo.err = newError(expr, runInfo.err)
